@@ -125,14 +125,14 @@ CHECKS = {
    technique='Coq proof (soundness of exposure entries against the pointwise NetworkPolicy semantics, for all hypothetical pods) + model/implementation correspondence + realizability probe',
    note=TB + " Assumed of a hypothetical pod: its namespace labels carry kubernetes.io/metadata.name = its namespace (Kubernetes sets it). Focus-workload filtering and ingress-controller lines under --exposure are not in the exposure model (they are C16/C10's)."),
  'C07': dict(
-   text="PARTIAL (egress named ports). Machine-checked proof (Coq) on the same model: every rule of a policy governing a workload that matches a hypothetical pod (arbitrary labels, existing or new namespace) is covered - its connections are in the "
+   text="Machine-checked proof (Coq) on the exposure model: every rule of a policy governing a workload that matches a hypothetical pod (arbitrary labels, existing or new namespace) is covered - its connections are in the "
         "entire-cluster entry, or in a reported entry whose selectors the pod satisfies, or the entry's representative peer was refined away, which happens only for selectors made solely of label equalities satisfied by an existing workload "
-        "(the documented omission, proved exactly); de-duplication by key never loses a selector pair, the registered peer stands for every pod the rule entry matches whichever rule generated it, and the containment test that suppresses an "
-        "entry is sound. For egress the covered points are those of the rule's numbered ports (named egress ports: proved for soundness only). Tied to /repo by the model correspondence and by a completeness probe: hypothetical pods are added "
-        "to the input and every connection the real analysis then allows must be covered by an entry of the run without the pod.",
+        "(the documented omission, proved exactly). Covered means: for ingress the full rule semantics with named ports resolved on the workload; for egress the numbered ports, and for a named egress port the entry holds the pod's declared "
+        "number or stores the name. De-duplication by key never loses a selector pair, the registered peer stands for every pod the rule entry matches whichever rule generated it, and the containment test that suppresses an entry is sound "
+        "(named ports included). Tied to /repo by the model correspondence and by a completeness probe: hypothetical pods are added to the input and every connection the real analysis then allows must be covered by an entry of the run without the pod.",
    design_ref='DESIGN.md section 6 / C07',
    technique='Coq proof (completeness of representative-peer generation, matching and reporting, with the documented refinement) + model/implementation correspondence + completeness probe',
-   note=TB + " Partial: completeness for named ports of egress rules is checked by the probe and the correspondence, not proved. Four defects of the implementation were repaired by fix: commits (see known_findings.json)."),
+   note=TB + " Assumed of a hypothetical pod: its namespace labels carry kubernetes.io/metadata.name = its namespace. Four defects of the implementation were repaired by fix: commits (see known_findings.json)."),
  'C10': dict(
    text="Machine-checked proof (Coq) that in the model of ingress_analyzer.go + getIngressAllowedConnections every {ingress-controller} line is the line of a workload targeted by a Route/Ingress of its namespace through a kept Service, "
         "carries exactly the (TCP, n) with n a TCP container port reached through the targetPort (number, or name resolved on the workload; the port when unset) of the designated service port and allowed by the pointwise policy "
